@@ -69,6 +69,13 @@ def generate(rng, tier):
         for _ in range(rng.range(1, 3)):
             s += rng.choice(["c0", "d0"]) + c1(1, 40) + c1(1, 40) + "%02x" % (2 * rng.below(120)) + "%02x" % (2 * rng.below(4)) + c1(-30, 30) + c1(-30, 30)
         g["arcs-large-target"].append("DEC " + s + "e1")
+    g["nonfinite-operands"] = []
+    for bad in ("0300c07f", "0300c0ff", "0300807f", "030080ff", "03ffff7f", "0300a07f"):
+        ok = "50"
+        for body in ("c7" + bad + ok, "c7" + ok + bad, "c7" + bad + bad, "a8" + bad, "af" + bad, "b0" + bad, "b8" + bad,
+                     "c0" + bad + ok, "c0" + ok + bad + "e1", "c08080" + "c0" + "9090" + bad + "00" + "8080" + "e1"):
+            g["nonfinite-operands"].append("DEC " + G.MAGIC + "00" + body)
+            g["nonfinite-operands"].append("DEC " + G.MAGIC + "00" + body + "00")
     g["pixels-nonfinite"] = []
     out = {}
     out["pixels-nonfinite"] = ["DPIX 16 16 " + G.MAGIC + "00" + "c08080" + "00" + co + "90" + "e1" for co in ("0300807f", "030080ff", "0300c07f", "03ffff7f")]
